@@ -198,6 +198,10 @@ def u3(rep, w):
                     continue
                 er = {x for x in roots_of(org, ep) if x[0][0] != 'const'}
                 from_iter = any(x[0][0] == 'call' and x[0][2] == 'yarel::object::ObjStringIter::next' for x in er)
+                # ... or by the standard library's own boundary-aware scanners: the byte position half of a char_indices() item, the
+                # result of find / rfind, a length, and such a position plus the len_utf8() of a character
+                real = [x for x in er if x[0][0] != 'local']
+                from_iter = from_iter or (bool(real) and all(_std_boundary(f, org, x) for x in real))
                 through = {b2 for (b2, ck) in checks if er & ck}
                 # a boundary-scanning loop (`while end <= len && !is_char_boundary(end) { end += 1 }`): the loop header stands for
                 # the check, the only way out without the check is the length test
@@ -215,6 +219,28 @@ def u3(rep, w):
     it = w.require_fn('yarel::object::ObjStringIter::next', 'C13')
     scans = any((callee_name(t) or '').endswith('is_char_boundary') for _, t in it.calls())
     r.check(scans, 'ObjStringIter::next advances to the next character boundary', 'the string iterator no longer scans with is_char_boundary', it.loc())
+
+
+STD_POSITIONS = ('core::str::<impl str>::find', 'core::str::<impl str>::rfind', 'core::str::<impl str>::len', 'std::string::String::len',
+                 'std::char::methods::<impl char>::len_utf8')
+
+
+def _std_boundary(f, org, x, depth=0):
+    if x[0][0] != 'call' or depth > 3:
+        return False
+    name = strip_generics(x[0][2])      # (also drops the `<impl str>` segment: compare stripped with stripped)
+    toks = [t_ for t_ in x[1:] if t_ != '#bin' and not t_.startswith('@') and t_ != '*' and not t_.startswith(('as ', 'in '))]
+    if name in [strip_generics(n_) for n_ in STD_POSITIONS]:
+        return True
+    if name == strip_generics('core::str::<impl str>::char_indices'):
+        return bool(toks) and toks[-1] == '0'        # (position, char): the position half
+    if name in ('std::iter::Iterator::peekable', 'std::iter::Iterator::rev', 'std::iter::Iterator::skip', 'std::iter::Iterator::take', 'std::iter::Iterator::fuse'):
+        # adapters that hand the items on unchanged: look at what they adapt
+        t = f.blocks[x[0][1]]['t']
+        pl = op_place(t['args'][0]) if t['args'] else None
+        inner = [q for q in org.get(pl['l'], ()) if q[0][0] == 'call'] if pl is not None else []
+        return bool(inner) and all(_std_boundary(f, org, (q[0],) + tuple(q[1:]) + tuple(x[1:]), depth + 1) for q in inner)
+    return False
 
 
 def roots_of(org, pl):
